@@ -50,6 +50,17 @@ func (r *rng) smallU8() uint8 {
 	return r.u8()
 }
 
+// seq16 returns an interesting 16-bit sequence number: often near the wrap-around.
+func (r *rng) seq16() uint16 {
+	switch r.intn(6) {
+	case 0:
+		return uint16(65535 - r.intn(20))
+	case 1:
+		return uint16(r.intn(20))
+	}
+	return r.u16()
+}
+
 // interesting 32-bit values
 func (r *rng) ssrc() uint32 {
 	switch r.intn(8) {
@@ -190,6 +201,14 @@ func genReception(r *rng, bad bool) rtcp.ReceptionReport {
 		LastSenderReport:   r.u32(),
 		Delay:              r.u32(),
 	}
+	switch r.intn(10) {
+	case 0:
+		rr.TotalLost = 0x800000 | r.u32()&0xFFFF // negative as a signed 24-bit quantity
+	case 1:
+		rr.TotalLost = 0xFFFFFF
+	case 2:
+		rr.FractionLost, rr.TotalLost = 0, 1+r.u32()&0xFF
+	}
 	if bad {
 		rr.TotalLost = 1<<25 + r.u32()&0xFFFF
 	}
@@ -222,6 +241,25 @@ func genReports(r *rng, sz int) []rtcp.ReceptionReport {
 	return out[:n]
 }
 
+// relateReports sometimes makes report blocks equal to each other or refer to the sender itself.
+func relateReports(r *rng, sender uint32, reps []rtcp.ReceptionReport) {
+	if len(reps) == 0 {
+		return
+	}
+	switch r.intn(8) {
+	case 0:
+		reps[r.intn(len(reps))].SSRC = sender
+	case 1:
+		if len(reps) > 1 {
+			reps[len(reps)-1] = reps[0] // two equal blocks
+		}
+	case 2:
+		for i := range reps {
+			reps[i].SSRC = uint32(i + 1) // sorted
+		}
+	}
+}
+
 func genProfileExt(r *rng) []byte {
 	switch r.intn(4) {
 	case 0:
@@ -235,14 +273,18 @@ func genProfileExt(r *rng) []byte {
 }
 
 func genSR(r *rng, sz int) *rtcp.SenderReport {
-	return &rtcp.SenderReport{
+	sr := &rtcp.SenderReport{
 		SSRC: r.ssrc(), NTPTime: r.u64(), RTPTime: r.u32(), PacketCount: r.u32(), OctetCount: r.u32(),
 		Reports: genReports(r, sz), ProfileExtensions: genProfileExt(r),
 	}
+	relateReports(r, sr.SSRC, sr.Reports)
+	return sr
 }
 
 func genRR(r *rng, sz int) *rtcp.ReceiverReport {
-	return &rtcp.ReceiverReport{SSRC: r.ssrc(), Reports: genReports(r, sz), ProfileExtensions: genProfileExt(r)}
+	rr := &rtcp.ReceiverReport{SSRC: r.ssrc(), Reports: genReports(r, sz), ProfileExtensions: genProfileExt(r)}
+	relateReports(r, rr.SSRC, rr.Reports)
+	return rr
 }
 
 func genItem(r *rng, sz int, cname bool) rtcp.SourceDescriptionItem {
@@ -379,6 +421,32 @@ func genNACK(r *rng, sz int) *rtcp.TransportLayerNack {
 			}
 		}
 		p.Nacks = nacks[:n]
+		base := r.seq16()
+		switch r.intn(8) {
+		case 0: // consecutive / overlapping windows, possibly wrapping
+			for i := range p.Nacks {
+				p.Nacks[i].PacketID = base + uint16(i*(1+r.intn(17)))
+			}
+		case 1: // descending
+			for i := range p.Nacks {
+				p.Nacks[i].PacketID = base - uint16(i*17)
+			}
+		case 2: // extreme bitmasks
+			for i := range p.Nacks {
+				if r.chance(2) {
+					p.Nacks[i].LostPackets = 0xFFFF
+				} else {
+					p.Nacks[i].LostPackets = 0
+				}
+			}
+		case 3: // equal pairs
+			for i := range p.Nacks {
+				p.Nacks[i] = p.Nacks[0]
+			}
+		}
+	}
+	if r.chance(8) {
+		p.MediaSSRC = p.SenderSSRC
 	}
 	return p
 }
@@ -403,15 +471,38 @@ func genTWCC(r *rng, sz int) *rtcp.TransportLayerCC {
 	addDelta := func(sym uint16) {
 		switch sym {
 		case rtcp.TypeTCCPacketReceivedSmallDelta:
-			t.RecvDeltas = append(t.RecvDeltas, &rtcp.RecvDelta{Type: sym, Delta: int64(r.intn(256)) * rtcp.TypeTCCDeltaScaleFactor})
+			d := int64(r.intn(256)) * rtcp.TypeTCCDeltaScaleFactor
+			switch r.intn(12) {
+			case 0:
+				d = 63750 // largest small delta
+			case 1:
+				d = 0
+			case 2:
+				d += int64(1 + r.intn(249)) // not a multiple of the 250 µs tick
+			}
+			t.RecvDeltas = append(t.RecvDeltas, &rtcp.RecvDelta{Type: sym, Delta: d})
 		case rtcp.TypeTCCPacketReceivedLargeDelta:
-			t.RecvDeltas = append(t.RecvDeltas, &rtcp.RecvDelta{Type: sym, Delta: int64(r.intn(65536)-32768) * rtcp.TypeTCCDeltaScaleFactor})
+			d := int64(r.intn(65536)-32768) * rtcp.TypeTCCDeltaScaleFactor
+			switch r.intn(12) {
+			case 0:
+				d = -250
+			case 1:
+				d = 64000 // smallest delta that needs the large form
+			case 2:
+				d = 8191750
+			case 3:
+				d = -8192000
+			}
+			t.RecvDeltas = append(t.RecvDeltas, &rtcp.RecvDelta{Type: sym, Delta: d})
 		}
 	}
 	for i := 0; i < nChunks; i++ {
 		if r.chance(2) {
 			sym := uint16(r.intn(3))
 			run := uint16(1 + r.intn(20))
+			if r.chance(12) {
+				run = 0 // an empty run is encodable
+			}
 			t.PacketChunks = append(t.PacketChunks, &rtcp.RunLengthChunk{Type: rtcp.TypeTCCRunLengthChunk, PacketStatusSymbol: sym, RunLength: run})
 			for j := 0; j < int(run); j++ {
 				addDelta(sym)
@@ -419,8 +510,15 @@ func genTWCC(r *rng, sz int) *rtcp.TransportLayerCC {
 			total += int(run)
 		} else if r.chance(2) {
 			c := &rtcp.StatusVectorChunk{Type: rtcp.TypeTCCStatusVectorChunk, SymbolSize: rtcp.TypeTCCSymbolSizeOneBit}
+			all := -1
+			if r.chance(6) {
+				all = r.intn(2)
+			}
 			for j := 0; j < 14; j++ {
 				s := uint16(r.intn(2))
+				if all >= 0 {
+					s = uint16(all)
+				}
 				c.SymbolList = append(c.SymbolList, s)
 				addDelta(s)
 			}
@@ -528,7 +626,10 @@ func genCCFB(r *rng, sz int) *rtcp.CCFeedbackReport {
 		nb = 8 + r.intn(20)
 	}
 	for i := 0; i < nb; i++ {
-		b := rtcp.CCFeedbackReportBlock{MediaSSRC: r.ssrc(), BeginSequence: r.u16()}
+		b := rtcp.CCFeedbackReportBlock{MediaSSRC: r.ssrc(), BeginSequence: r.seq16()}
+		if i > 0 && r.chance(6) {
+			b.MediaSSRC = c.ReportBlocks[0].MediaSSRC // two blocks for one source
+		}
 		nm := r.intn(12)
 		bad := false
 		if sz == szLarge && r.chance(8) {
@@ -553,6 +654,9 @@ func genCCFB(r *rng, sz int) *rtcp.CCFeedbackReport {
 					continue
 				}
 				b.MetricBlocks[j] = rtcp.CCFeedbackMetricBlock{Received: true, ECN: rtcp.ECN(r.intn(4)), ArrivalTimeOffset: uint16(r.intn(0x2000))}
+				if r.chance(10) {
+					b.MetricBlocks[j].ArrivalTimeOffset = uint16(0x1FFE + r.intn(2)) // the two reserved-looking top values
+				}
 				if r.chance(16) {
 					b.MetricBlocks[j].ArrivalTimeOffset = r.u16() // may be out of range
 				}
@@ -577,6 +681,19 @@ func genSLI(r *rng, sz int) *rtcp.SliceLossIndication {
 				p.SLI[i] = rtcp.SLIEntry{First: r.u16(), Number: r.u16(), Picture: r.u8()}
 			}
 		}
+		switch r.intn(8) {
+		case 0: // field limits
+			for i := range p.SLI {
+				p.SLI[i] = rtcp.SLIEntry{First: 0x1FFF, Number: 0x1FFF, Picture: 0x3F}
+			}
+		case 1: // sorted, equal pictures
+			for i := range p.SLI {
+				p.SLI[i] = rtcp.SLIEntry{First: uint16(i), Number: 1, Picture: 7}
+			}
+		}
+	}
+	if r.chance(8) {
+		p.MediaSSRC = p.SenderSSRC
 	}
 	return p
 }
@@ -589,6 +706,19 @@ func genFIR(r *rng, sz int) *rtcp.FullIntraRequest {
 		for i := range p.FIR {
 			p.FIR[i] = rtcp.FIREntry{SSRC: r.ssrc(), SequenceNumber: r.u8()}
 		}
+		switch r.intn(8) {
+		case 0: // one source, wrapping sequence numbers
+			for i := range p.FIR {
+				p.FIR[i] = rtcp.FIREntry{SSRC: p.MediaSSRC, SequenceNumber: uint8(250 + i)}
+			}
+		case 1: // all entries equal
+			for i := range p.FIR {
+				p.FIR[i] = p.FIR[0]
+			}
+		}
+	}
+	if r.chance(8) {
+		p.MediaSSRC = p.SenderSSRC
 	}
 	return p
 }
@@ -617,6 +747,14 @@ func genREMB(r *rng, sz int) *rtcp.ReceiverEstimatedMaximumBitrate {
 	}
 	if n > 0 || r.chance(2) {
 		p.SSRCs = r.spareU32(n)
+	}
+	if len(p.SSRCs) > 0 {
+		switch r.intn(8) {
+		case 0:
+			p.SSRCs[r.intn(len(p.SSRCs))] = p.SenderSSRC
+		case 1:
+			p.SSRCs[len(p.SSRCs)-1] = p.SSRCs[0]
+		}
 	}
 	return p
 }
@@ -681,7 +819,11 @@ func genXRBlock(r *rng, kind int, sz int) rtcp.ReportBlock {
 			MOSLQ: r.u8(), MOSCQ: r.u8(), RXConfig: r.u8(), JBNominal: r.u16(), JBMaximum: r.u16(), JBAbsMax: r.u16(),
 		}
 	}
-	b := &rtcp.UnknownReportBlock{Bytes: r.spareBytes(4 * n)}
+	nb := 4 * n
+	if r.chance(6) {
+		nb += 1 + r.intn(3) // not a whole number of words
+	}
+	b := &rtcp.UnknownReportBlock{Bytes: r.spareBytes(nb)}
 	b.XRHeader.BlockType = rtcp.BlockTypeType(8 + r.intn(248))
 	if r.chance(4) {
 		// an opaque block may carry any type number, including one the library knows (or 0)
@@ -847,6 +989,9 @@ func genCompound(r *rng, sz int) *rtcp.CompoundPacket {
 	for i := 0; i < n; i++ {
 		k := r.intn(numKinds - 2) // no Raw, no nested compound
 		c = append(c, genPacketSz(r, k, sub()))
+	}
+	if sz != szLarge && r.chance(20) {
+		c = append(c, genCompound(r, szTypical)) // a compound inside a compound (it is a Packet, after all)
 	}
 	if len(c) > 2 && r.chance(10) {
 		// the same packet object twice in one compound (legal: e.g. a BYE or a feedback packet repeated)
